@@ -62,8 +62,10 @@ def rule_cast_to_bool(ctx, repo):
     loops = [n for n in fi.node.body if isinstance(n, ast.For)]
     rest = [n for n in fi.node.body if not isinstance(n, ast.For) and not (isinstance(n, ast.Expr) and isinstance(n.value, ast.Constant))]
     pre = []
-    while rest and loops and isinstance(rest[0], ast.Assign) and len(rest[0].targets) == 1 and isinstance(rest[0].targets[0], ast.Name) \
-            and fi.node.body.index(rest[0]) < fi.node.body.index(loops[0]):
+    while rest and loops and fi.node.body.index(rest[0]) < fi.node.body.index(loops[0]) and \
+            ((isinstance(rest[0], ast.Assign) and len(rest[0].targets) == 1 and isinstance(rest[0].targets[0], ast.Name)) or isinstance(rest[0], ast.If)):
+        # statements before the scan: local definitions, and guard clauses (evaluated with the cells below; on the empty
+        # string they may only answer False or fall through)
         pre.append(rest.pop(0))
     if len(loops) != 1:
         uses = [n for n in ast.walk(fi.node) if isinstance(n, ast.Name) and n.id == p]
@@ -116,6 +118,12 @@ def rule_cast_to_bool(ctx, repo):
             else:
                 raise Stop(norm(st)[:60])
         return None
+    if any(isinstance(x, ast.If) for x in pre):
+        try:
+            out0 = run_([x for x in pre], {p: b''})
+            r.check(out0 in (None, ('return', False)), 'empty', fi.site, 'the empty string is false', 'the empty string is answered %s before the scan' % (out0,))
+        except Exception as e:
+            r.undecided('empty', fi.site, 'statements before the scan do not evaluate on the empty string (%s)' % type(e).__name__)
     for last in (False, True):
         for v, what in ((0, 'zero byte'), (0x80, '0x80'), (1, 'another non-zero byte'), (0xff, '0xff')):
             i = 2 if last else 0
@@ -123,7 +131,11 @@ def rule_cast_to_bool(ctx, repo):
             env = {p: sbytes}
             key = '%s:%s' % ('last' if last else 'inner', what)
             try:
-                run_(pre, env)
+                out_pre = run_(pre, env)
+                if out_pre is not None:
+                    exp_ = ('return', False) if v == 0 else ('return', not (last and v == 0x80))
+                    r.check(False, key, fi.site, '', 'a 3-byte string (%s) is answered %s before the scan looks at its bytes' % (sbytes.hex(), out_pre))
+                    continue
                 env[iv] = i
                 if ev:
                     env[ev] = v
